@@ -159,9 +159,12 @@ def run(ctx):
         for i, t in lookups:
             sws += cfg.bool_switches(b2, cfg.derived_locals(b2, [t["d"][0]], through=lambda n: cfg.is_transparent(n) or (
                 n or "").endswith(("::is_some", "::is_none"))))
-        ok = bool(neg_aggs and sws) and all(any(
-            cfg.find_path(b2, [0], [na], removed_edges=[e]) is None for sw in sws for e in (sw["true_edge"], sw["false_edge"]))
-            for na in neg_aggs)
+        # the place where the id is negated (not necessarily where DbId is built: `DbId(if is_node { i } else { -i })`)
+        # is reachable only on one outcome of the graph look-up
+        neg_blocks = [bi for bi, s_ in cfg.assigns(b2) if s_["r"]["k"] == "un" and s_["r"]["op"] == "Neg"]
+        ok = bool(neg_aggs and sws and neg_blocks) and all(any(
+            cfg.find_path(b2, [0], [nb], removed_edges=[e]) is None for sw in sws for e in (sw["true_edge"], sw["false_edge"]))
+            for nb in neg_blocks)
         ctx.ob("R11f", "insert_index:id-sign-from-graph", ok,
                "the negative (edge) id is chosen by a graph membership lookup" if ok else
                "insert_index no longer asks the graph whether a slot is a node or an edge: existing edges would be "
